@@ -62,6 +62,27 @@ func bindingStep() func(t *rapid.T, w *world.World) world.Action {
 			switch rapid.IntRange(0, 99).Draw(t, "bind?") / 4 {
 			case 0, 1, 2:
 				return genProbe(t, w)
+			case 4, 5:
+				// concurrent CCV handshakes with one consumer: several channels are opened from the consumer side and
+				// their steps are interleaved freely (the provider may complete at most one of them)
+				f := w.F()
+				if len(f.Order) > 0 {
+					id := rapid.SampledFrom(f.Order).Draw(t, "racechain")
+					if rapid.IntRange(0, 3).Draw(t, "racemacro") == 0 {
+						r := func(arg string, k int) world.Action {
+							return world.Action{Kind: world.KRelay, Consumer: id, Relay: &world.RelaySpec{Op: "race", Arg: arg, K: k}}
+						}
+						pb := world.Action{Kind: world.KBlock, Dt: 2e9}
+						cb := world.Action{Kind: world.KBlock, Chain: id, Dt: 2e9}
+						w.Agenda = append(w.Agenda, r("init", 0), cb, cb, r("", 0), r("", 1), pb, pb, r("", 0), r("", 1), cb, cb, r("", 0), r("", 1), pb, pb)
+						return r("init", 0)
+					}
+					arg := ""
+					if rapid.IntRange(0, 3).Draw(t, "raceinit") == 0 {
+						arg = "init"
+					}
+					return world.Action{Kind: world.KRelay, Consumer: id, Relay: &world.RelaySpec{Op: "race", Arg: arg, K: rapid.IntRange(0, 3).Draw(t, "racek")}}
+				}
 			case 3:
 				// a new consumer that names a connection already existing on the provider (and its chain id)
 				conns := w.P.App.GetIBCKeeper().ConnectionKeeper.GetAllConnections(w.P.Ctx())
